@@ -1,4 +1,5 @@
 import SSVerif.Model.Protocol
+import SSVerif.Proofs.AlignVec
 /-! helper lemmas for C09: `WF` is an invariant of `step` -/
 namespace SSVerif.Protocol
 
@@ -408,12 +409,13 @@ theorem wf_endUtt (s : ApiState) (h : WF s) (a : Bool) : WF (step s (.endUtt a))
   (repeat' split) <;> first
     | exact h
     | (rename_i h0 hs hu
-       exact { dead := fun hr => absurd hr h0, noSearch := fun hn => absurd hn hs,
-               activeIff := by simp, inUtt := fun hx => (by cases hx),
-               dagFresh := fun hf => h.dagFresh (by simp at hf; exact hf.1),
-               alFresh := fun hf => h.alFresh (by simp at hf; exact hf.1),
-               iters := fun it hm hv =>
-                 live_congr it.kind rfl rfl rfl rfl (fun _ x => x) (fun _ x => x) (h.iters it hm hv) })
+       refine { dead := fun hr => absurd hr h0, noSearch := fun hn => absurd hn hs,
+                activeIff := by simp, inUtt := fun hx => (by cases hx),
+                dagFresh := fun hf => h.dagFresh (by simp at hf; exact hf.1),
+                alFresh := fun hf => (by cases hf), iters := ?_ }
+       refine iters_of_invalidate h (p := isAliD) rfl ?_
+       intro k hp hl
+       cases k <;> simp_all [live, isAliD])
 
 theorem wf_seg (s : ApiState) (h : WF s) (i : Nat) (e : Bool) : WF (step s (.seg i e)).1 := by
   simp only [step]
@@ -602,7 +604,7 @@ theorem wf_init (s : ApiState) (h : WF s) (g : Gram) (f : Bool) : WF (step s (.i
     have h0' : s.refs = 0 := by simpa using h0
     split
     · exact h
-    · have hs0 : WF ({ iters := s.iters, lats := s.lats, alns := s.alns, refs := 1, nextObj := s.nextObj } : ApiState) := by
+    · have hs0 : WF ({ iters := s.iters, lats := s.lats, alns := s.alns, built := s.built, refs := 1, nextObj := s.nextObj } : ApiState) := by
         refine { dead := fun hr => (by cases hr), noSearch := fun _ => ⟨rfl, by simp⟩, activeIff := by simp,
                  inUtt := fun hx => (by cases hx), dagFresh := fun hx => (by cases hx),
                  alFresh := fun hx => (by cases hx), iters := ?_ }
@@ -614,7 +616,7 @@ theorem wf_init (s : ApiState) (h : WF s) (g : Gram) (f : Bool) : WF (step s (.i
       have h2 := wf_loadGrammar hs0 (by simp) rfl rfl g
       split
       · rename_i s2 heq
-        have : (loadGrammar { iters := s.iters, lats := s.lats, alns := s.alns, refs := 1, nextObj := s.nextObj } g).1 = s2 := by
+        have : (loadGrammar { iters := s.iters, lats := s.lats, alns := s.alns, built := s.built, refs := 1, nextObj := s.nextObj } g).1 = s2 := by
           rw [heq]
         rw [← this]; exact h2
       · exact h
@@ -688,5 +690,92 @@ theorem wf_run (s : ApiState) (h : WF s) (cs : List Call) : WF (run s cs) := by
   induction cs generalizing s with
   | nil => exact h
   | cons c cs ih => exact ih _ (wf_step s c h)
+
+/-! ### user-built alignments keep their counters in bounds -/
+
+/-- every user-built alignment has all three levels inside their allocation and the 16-bit limit -/
+def BuiltOk (s : ApiState) : Prop := ∀ p ∈ s.built, AlignVec.UAlign.Ok p.2
+
+@[simp] theorem built_latticeStep (s : ApiState) (e : Bool) : (latticeStep s e).1.built = s.built := by
+  unfold latticeStep; (repeat' split) <;> rfl
+@[simp] theorem built_alignStep (s : ApiState) (ru r a : Bool) : (alignStep s ru r a).1.built = s.built := by
+  unfold alignStep; (repeat' split) <;> rfl
+@[simp] theorem built_latOf (s : ApiState) (src : LatSrc) (e : Bool) : (latOf s src e).1.built = s.built := by
+  cases src <;> simp [latOf]
+@[simp] theorem built_drop (s : ApiState) : (dropDecoderOwned s).built = s.built := rfl
+@[simp] theorem built_loadGrammar (s : ApiState) (g : Gram) : (loadGrammar s g).1.built = s.built := by
+  unfold loadGrammar; split <;> rfl
+
+theorem builtOf_mem {l : List (Nat × AlignVec.UAlign)} {k : Nat} {u : AlignVec.UAlign} (h : builtOf l k = some u) :
+    ∃ p ∈ l, p.2 = u := by
+  simp only [builtOf, Option.map_eq_some_iff] at h
+  obtain ⟨p, hp, hu⟩ := h
+  exact ⟨p, List.mem_of_find?_eq_some hp, hu⟩
+
+theorem setBuilt_ok {l : List (Nat × AlignVec.UAlign)} (hl : ∀ p ∈ l, AlignVec.UAlign.Ok p.2) (k : Nat)
+    {u : AlignVec.UAlign} (hu : u.Ok) : ∀ p ∈ setBuilt l k u, AlignVec.UAlign.Ok p.2 := by
+  intro p hp
+  simp only [setBuilt, List.mem_cons, List.mem_filter] at hp
+  rcases hp with rfl | ⟨hm, _⟩
+  · exact hu
+  · exact hl p hm
+
+/-- a state that keeps the table of built alignments -/
+theorem BuiltOk.of_eq {s s' : ApiState} (h : BuiltOk s) (e : s'.built = s.built) : BuiltOk s' := by
+  unfold BuiltOk; rw [e]; exact h
+
+theorem builtOk_step (s : ApiState) (c : Call) (h : BuiltOk s) : BuiltOk (step s c).1 := by
+  cases c with
+  | alBuild k =>
+    simp only [step]
+    (repeat' split) <;> first | exact h | exact setBuilt_ok h k AlignVec.ualign0_ok
+  | alAdd k n plen =>
+    simp only [step]
+    split
+    · rename_i u hu
+      obtain ⟨p, hp, rfl⟩ := builtOf_mem hu
+      exact setBuilt_ok h k (AlignVec.addWords_ok (h p hp) n plen)
+    · exact h
+  | alPop k e =>
+    simp only [step]
+    split
+    · rename_i u hu
+      obtain ⟨p, hp, rfl⟩ := builtOf_mem hu
+      exact setBuilt_ok h k (AlignVec.populate_ok (h p hp) e)
+    · exact h
+  | alFree k =>
+    simp only [step]
+    split
+    · intro p hp
+      exact h p (List.mem_filter.mp hp).1
+    · exact h
+  | init g f =>
+    simp only [step]
+    (repeat' split) <;> first
+      | exact h
+      | (rename_i s2 heq
+         have : s2.built = s.built := by
+           have := built_loadGrammar ({ iters := s.iters, lats := s.lats, alns := s.alns, built := s.built, refs := 1,
+                                        nextObj := s.nextObj } : ApiState) g
+           rw [heq] at this; exact this
+         exact h.of_eq this)
+  | alIter i src ru r a e =>
+    cases src <;> simp only [step] <;> (repeat' split) <;> first
+      | exact h
+      | exact h.of_eq (by simp)
+      | exact h.of_eq rfl
+  | _ =>
+    simp only [step]
+    (repeat' split) <;> first
+      | exact h
+      | exact h.of_eq (by simp)
+      | exact h.of_eq rfl
+
+theorem builtOk_init0 : BuiltOk init0 := by intro p hp; cases hp
+
+theorem builtOk_run (s : ApiState) (h : BuiltOk s) (cs : List Call) : BuiltOk (run s cs) := by
+  induction cs generalizing s with
+  | nil => exact h
+  | cons c cs ih => exact ih _ (builtOk_step s c h)
 
 end SSVerif.Protocol
